@@ -203,6 +203,7 @@ class TheDict(MutableMapping):
             ebpf.r1 = ebpf.get_fd(self.fd)
             ebpf.r2 = ebpf.r10 + self.key.addr_offset
             ebpf.call(FuncId.map_lookup_elem)
+        ebpf.owners.add(0)  # the result of the lookup
         with ebpf.r0 != 0 as Else:
             value = type(self.value)()
             value.addr_offset = 0
